@@ -188,7 +188,7 @@ Lemma step_MContent0 d q p s b ci ct tot h :
   step d q p s (mk b ci ct)
   = (match strip_text b h (firstn tot s) with
      | [] => []
-     | v => if starts_markup v then [LexErr p] else [Tok {| t_kind := KContent; t_value := v; t_start := p |}]
+     | v => if starts_markup d q v then [LexErr p] else [Tok {| t_kind := KContent; t_value := v; t_start := p |}]
      end, mk b ci ct, tot).
 Proof.
   intros H. unfold step. rewrite H. cbn [m_total ls_depth mk ls_lstrip]. unfold strip_text.
@@ -259,11 +259,11 @@ Qed.
 Lemma plain_strip d a b t : plain d t = true -> plain d (strip_text a b t) = true.
 Proof. intros H. unfold strip_text. destruct a, b; auto using plain_lstrip, plain_rstrip. Qed.
 
-Lemma plain_not_markup d v : plain d v = true -> starts_markup v = false.
+Lemma plain_not_markup d v : dfacts d -> plain d v = true -> starts_markup d fixed v = false.
 Proof.
-  destruct v as [|c v]; [reflexivity|]. simpl. intros H. apply andb_true_iff in H as [H _].
-  unfold plain_char in H. apply andb_true_iff in H as [_ H]. apply negb_true_iff in H.
-  unfold starts_markup. cbn [prefixb]. rewrite (N.eqb_sym lbrace c), H. reflexivity.
+  intros F. unfold starts_markup. cbn [q_brace fixed]. destruct v as [|c v]; intros H.
+  - rewrite !prefixb_nil by apply F. reflexivity.
+  - simpl in H. apply andb_true_iff in H as [H _]. rewrite plain_not_ss, plain_not_ts by auto. reflexivity.
 Qed.
 
 Lemma rprepend_nil r : rprepend [] r = r.
